@@ -19,6 +19,8 @@
 #include <pthread.h>
 #include <unistd.h>
 #include <atomic>
+#include <algorithm>
+#include <climits>
 #include <chrono>
 #include <map>
 #include <memory>
@@ -51,6 +53,31 @@ static inline void maybe_sleep(int scale) {
 }
 static std::atomic<uint64_t> g_seq{0};
 static inline uint64_t seq() { return g_seq.fetch_add(1) + 1; }
+// ---- step-level event log (round 5): every critical section of the pool mutex on a worker thread, every
+// cond_wait entry / exit, every notify, thread creation and join gets a global sequence number.  The numbers are
+// taken with memory_order_relaxed so that the log itself adds no happens-before edge ThreadSanitizer would honour
+// (a race on the stop flag must stay visible).  L is stamped right AFTER the mutex was acquired, U right BEFORE it
+// is released, CW before the wait releases it, CX after the wait re-acquired it: the stamps of two critical
+// sections of the same mutex never interleave, so sorting by stamp gives the exact order of the sections.
+static inline uint64_t seq_rlx() { return g_seq.fetch_add(1, std::memory_order_relaxed) + 1; }
+enum { EV_L = 1, EV_U, EV_CW, EV_CX, EV_NO, EV_NA, EV_J, EV_TC };
+struct Ev { std::atomic<uint64_t> w{0}; std::atomic<uintptr_t> p{0}; };
+static const size_t kMaxEv = 1u << 18;
+static Ev g_evs[kMaxEv];
+static std::atomic<size_t> g_evn{0};
+static std::atomic<int> g_evon{0};
+static thread_local int tl_api = 0;               // != 0: this thread is inside an API call issued by the harness
+static thread_local uint64_t tl_cs = 0;           // stamp of the first acquisition of the pool mutex inside that call
+static thread_local int tl_widx = 0;              // 0 = not a tracked worker; else index into g_w (== thread number)
+static inline int me_idx() { return tl_widx ? tl_widx : (pthread_equal(pthread_self(), g_main_thr) ? 0 : -1); }
+static inline void ev(int kind, int thr, const void *p, int arg = 0) {
+    size_t i = g_evn.fetch_add(1, std::memory_order_relaxed);
+    uint64_t q = seq_rlx();
+    if (i >= kMaxEv) return;
+    g_evs[i].p.store((uintptr_t)p, std::memory_order_relaxed);
+    g_evs[i].w.store((q << 24) | ((uint64_t)kind << 20) | ((uint64_t)(thr & 1023) << 10) | (uint64_t)(arg & 1023), std::memory_order_relaxed);
+}
+static std::atomic<pthread_mutex_t *> g_loop_mutex{nullptr};   // the Loop's lock_ (runInLoop), captured at start-up
 // the pool's own mutex (captured from a getTaskStatus() call just before cleanup) and the sequence number taken
 // right after the loop thread first unlocks it inside cleanup(): cleanup()'s critical section — where the stop flag
 // is set and the waiting tasks are dropped — lies before that number
@@ -62,9 +89,20 @@ typedef int (*cwait_t)(pthread_cond_t *, pthread_mutex_t *);
 extern "C" int pthread_mutex_lock(pthread_mutex_t *m) {
     static mlock_t real = (mlock_t)dlsym(RTLD_NEXT, "pthread_mutex_lock");
     maybe_sleep(1);
-    if (g_capture.load(std::memory_order_relaxed) && pthread_equal(pthread_self(), g_main_thr) && g_cap_mutex.load() == nullptr)
+    int cap = g_capture.load(std::memory_order_relaxed);
+    if (cap == 1 && pthread_equal(pthread_self(), g_main_thr) && g_cap_mutex.load() == nullptr)
         g_cap_mutex = m;
-    return real(m);
+    if (cap == 2 && pthread_equal(pthread_self(), g_main_thr) && g_loop_mutex.load() == nullptr)
+        g_loop_mutex = m;
+    int r = real(m);
+    if (g_evon.load(std::memory_order_relaxed)) {
+        int me = me_idx();
+        if (me >= 0) {
+            if (tl_api) { if (tl_cs == 0 && m == g_cap_mutex.load(std::memory_order_relaxed)) tl_cs = seq_rlx(); }
+            else if (me > 0) ev(EV_L, me, m);
+        }
+    }
+    return r;
 }
 // on the LOOP thread, only while it is inside cleanup(): a pause after each unlock lets workers reach
 // their wait predicate between cleanup()'s critical section and what cleanup() does next.
@@ -73,6 +111,7 @@ extern "C" int pthread_mutex_lock(pthread_mutex_t *m) {
 static std::atomic<int> g_in_cleanup{0};
 extern "C" int pthread_mutex_unlock(pthread_mutex_t *m) {
     static mlock_t real = (mlock_t)dlsym(RTLD_NEXT, "pthread_mutex_unlock");
+    if (g_evon.load(std::memory_order_relaxed) && !tl_api && tl_widx > 0) ev(EV_U, tl_widx, m);
     int r = real(m);
     if (g_in_cleanup.load(std::memory_order_relaxed) && m == g_cap_mutex.load() && g_cq1.load() == 0
         && pthread_equal(pthread_self(), g_main_thr))
@@ -96,27 +135,42 @@ extern "C" int pthread_cond_wait(pthread_cond_t *c, pthread_mutex_t *m) {
     static cwait_t real = (cwait_t)dlsym(RTLD_NEXT, "pthread_cond_wait");
     bool worker = !pthread_equal(pthread_self(), g_main_thr);
     maybe_sleep(3);                              // mutex held, predicate already false
+    bool log = g_evon.load(std::memory_order_relaxed) && tl_widx > 0 && !tl_api;
+    if (log) ev(EV_CW, tl_widx, m);
     if (worker) g_in_wait.fetch_add(1);
     int r = real(c, m);
     if (worker) g_in_wait.fetch_sub(1);
+    if (log) ev(EV_CX, tl_widx, c);
     return r;
+}
+typedef int (*csig_t)(pthread_cond_t *);
+extern "C" int pthread_cond_signal(pthread_cond_t *c) {
+    static csig_t real = (csig_t)dlsym(RTLD_NEXT, "pthread_cond_signal");
+    if (g_evon.load(std::memory_order_relaxed)) { int me = me_idx(); if (me >= 0) ev(EV_NO, me, c); }
+    return real(c);
+}
+extern "C" int pthread_cond_broadcast(pthread_cond_t *c) {
+    static csig_t real = (csig_t)dlsym(RTLD_NEXT, "pthread_cond_broadcast");
+    if (g_evon.load(std::memory_order_relaxed)) { int me = me_idx(); if (me >= 0) ev(EV_NA, me, c); }
+    return real(c);
 }
 
 // worker threads are created by the loop thread (initialize / execute): count creations and ends exactly
 static std::atomic<int> g_track{0}, g_created{0}, g_ended{0};
-struct WRec { std::atomic<uint64_t> s{0}, e{0}; std::atomic<int> epoch{0}; };
+struct WRec { std::atomic<uint64_t> s{0}, e{0}; std::atomic<int> epoch{0}; std::atomic<unsigned long> pt{0}; };
 static const int kMaxW = 1024;
 static WRec g_w[kMaxW];
 static std::atomic<int> g_epoch{0};               // case number: threads of an earlier case do not count
 static thread_local int tl_made = 0;              // threads created BY this thread (execute() on it spawned a worker)
-static thread_local int tl_widx = 0;              // 0 = not a tracked worker; else index into g_w (== thread number)
+static thread_local int tl_failed = 0;            // creations by this thread that were made to fail (EAGAIN)
+static std::atomic<int> g_fail_create{0};         // n > 0: the n-th pthread_create from now on fails with EAGAIN
 struct Tramp { void *(*fn)(void *); void *arg; int idx; int epoch; };
 static void *tramp(void *p) {
     Tramp t = *(Tramp *)p; delete (Tramp *)p;
-    tl_widx = t.idx;
-    if (t.epoch == g_epoch.load()) g_w[t.idx].s = seq();
+    tl_widx = t.idx;                                           // 0: beyond the table (only counted)
+    if (t.idx > 0 && t.epoch == g_epoch.load()) g_w[t.idx].s = seq();
     void *r = t.fn(t.arg);
-    if (t.epoch == g_epoch.load()) { g_w[t.idx].e = seq(); g_ended.fetch_add(1); }
+    if (t.epoch == g_epoch.load()) { if (t.idx > 0) g_w[t.idx].e = seq(); g_ended.fetch_add(1); }
     return r;
 }
 typedef int (*pcreate_t)(pthread_t *, const pthread_attr_t *, void *(*)(void *), void *);
@@ -125,9 +179,30 @@ extern "C" int pthread_create(pthread_t *th, const pthread_attr_t *attr, void *(
     if (!g_track.load()) return real(th, attr, fn, arg);   // workers may be created by a nested execute() too
     ++tl_made;
     int idx = g_created.fetch_add(1) + 1;
-    if (idx >= kMaxW) return real(th, attr, fn, arg);
-    g_w[idx].s = 0; g_w[idx].e = 0;
-    return real(th, attr, tramp, new Tramp{fn, arg, idx, g_epoch.load()});
+    if (idx >= kMaxW) return real(th, attr, tramp, new Tramp{fn, arg, 0, g_epoch.load()});   // counted, not recorded
+    g_w[idx].s = 0; g_w[idx].e = 0; g_w[idx].pt = 0;
+    // fault schedule: the op file may make the n-th creation of this case fail with EAGAIN
+    if (g_fail_create.load() != 0 && g_fail_create.fetch_sub(1) == 1) { g_created.fetch_sub(1); --tl_made; ++tl_failed; return EAGAIN; }
+    int r = real(th, attr, tramp, new Tramp{fn, arg, idx, g_epoch.load()});
+    if (r == 0) {
+        g_w[idx].pt = (unsigned long)*th;
+        if (g_evon.load(std::memory_order_relaxed)) { int me = me_idx(); if (me >= 0) ev(EV_TC, me, nullptr, idx); }
+    }
+    return r;
+}
+typedef int (*pjoin_t)(pthread_t, void **);
+extern "C" int pthread_join(pthread_t th, void **ret) {
+    static pjoin_t real = (pjoin_t)dlsym(RTLD_NEXT, "pthread_join");
+    int r = real(th, ret);
+    if (g_evon.load(std::memory_order_relaxed)) {
+        int me = me_idx();
+        if (me >= 0) {
+            int n = g_created.load();
+            for (int i = 1; i <= n && i < kMaxW; ++i)
+                if (g_w[i].pt.load() == (unsigned long)th) { ev(EV_J, me, nullptr, i); g_w[i].pt = 0; break; }
+        }
+    }
+    return r;
 }
 
 // ---------------------------------------------------------------- recording
@@ -141,6 +216,7 @@ struct TaskRec {
     std::atomic<int> extra{0};                  // second execution / second callback (never expected)
     std::atomic<bool> cancelled{false};         // some cancel() answered 0
     std::atomic<bool> ready{false};             // nested task: prio/cb/dur are published
+    std::atomic<bool> cbdrop{false};            // WorkThread without any loop: the completion callback cannot be delivered
     struct Act { char kind; int prio; bool cb; unsigned dur; size_t k; };
     std::vector<Act> bscript, cscript;          // re-entrant API use from the task body / from the completion callback
 };
@@ -164,14 +240,38 @@ static int thr_index() {                         // loop thread = 0, workers = c
     return n;
 }
 
+struct ApiScope { ApiScope() { tl_api = 1; tl_cs = 0; } ~ApiScope() { tl_api = 0; } };
 // ---------------------------------------------------------------- re-entrant API use (bodies / callbacks call the pool)
-struct NEv { char kind; size_t k; int r; int thr; size_t parent; int prio; bool cb; uint64_t qb, qa; };
+struct NEv { char kind; size_t k; int r; int thr; size_t parent; int prio; bool cb; uint64_t qb, qa, cs; };
 static std::mutex g_nev_mu;
 static std::vector<NEv> g_nev;
 static void nev(const NEv &e) { std::lock_guard<std::mutex> lg(g_nev_mu); g_nev.push_back(e); }
 static tbox::eventx::ThreadPool *g_tp = nullptr;
 static tbox::eventx::WorkThread *g_wt = nullptr;
 static void run_script(size_t self, const std::vector<TaskRec::Act> &sc);
+static void task_body(size_t k);
+static void task_cb(size_t k);
+static event::Loop *g_loop = nullptr;
+// every public execute() overload is used: the variant is a function of the task number
+//   0: rvalue functions   1: const-reference functions   2 / 3: the same, WorkThread with the loop passed explicitly
+static bool g_wt_noloop = false;                 // WorkThread constructed without a default loop
+static cabinet::Token do_execute(size_t k, bool cb, int prio) {
+    int v = (int)(k % 4);
+    std::function<void()> body = [k] { task_body(k); };
+    std::function<void()> cbf = [k] { task_cb(k); };
+    ApiScope as;
+    if (g_tp) {
+        if (cb) return (v & 1) ? g_tp->execute(body, cbf, prio) : g_tp->execute(std::move(body), std::move(cbf), prio);
+        return (v & 1) ? g_tp->execute(body, prio) : g_tp->execute(std::move(body), prio);
+    }
+    if (g_wt) {
+        event::Loop *lp = (v & 2) ? g_loop : nullptr;
+        if (g_wt_noloop && lp == nullptr) g_tasks[k].cbdrop = true;
+        if (cb) return (v & 1) ? g_wt->execute(body, cbf, lp) : g_wt->execute(std::move(body), std::move(cbf), lp);
+        return (v & 1) ? g_wt->execute(body) : g_wt->execute(std::move(body));
+    }
+    return cabinet::Token();
+}
 static void task_body(size_t k) {
     TaskRec &t = g_tasks[k];
     if (t.nbody.fetch_add(1) > 0) { t.extra.fetch_add(1); return; }
@@ -208,7 +308,6 @@ static void watchdog() {
 }
 
 // ---------------------------------------------------------------- the case state
-static event::Loop *g_loop = nullptr;
 static bool g_inited = false, g_cleaned = false;
 
 static void run_script(size_t self, const std::vector<TaskRec::Act> &sc) {
@@ -223,23 +322,26 @@ static void run_script(size_t self, const std::vector<TaskRec::Act> &sc) {
             c.prio = a.prio; c.cb = a.cb; c.dur_us = a.dur;
             c.ready.store(true, std::memory_order_release);
             uint64_t qb = seq();
-            cabinet::Token tok;
-            if (g_tp) tok = a.cb ? g_tp->execute([k] { task_body(k); }, [k] { task_cb(k); }, a.prio) : g_tp->execute([k] { task_body(k); }, a.prio);
-            else if (g_wt) tok = a.cb ? g_wt->execute([k] { task_body(k); }, [k] { task_cb(k); }) : g_wt->execute([k] { task_body(k); });
+            cabinet::Token tok = do_execute(k, a.cb, a.prio);
+            uint64_t cs = tl_cs;
             uint64_t qa = seq();
-            if (tok.isNull()) { nev(NEv{'z', k, 0, thr, self, a.prio, a.cb, qb, qa}); }
-            else { c.token = tok; last = (long)k; nev(NEv{'x', k, 0, thr, self, a.prio, a.cb, qb, qa}); }
+            if (tok.isNull()) { nev(NEv{'z', k, 0, thr, self, a.prio, a.cb, qb, qa, cs}); }
+            else { c.token = tok; last = (long)k; nev(NEv{'x', k, 0, thr, self, a.prio, a.cb, qb, qa, cs}); }
         } else {
             size_t k = (a.kind == 'S' || a.kind == 'C') ? (size_t)last : a.k;
             if ((a.kind == 'S' || a.kind == 'C') && last < 0) continue;
             bool is_cancel = (a.kind == 'c' || a.kind == 'C');
             uint64_t qb = seq();
-            int r;
-            if (is_cancel) r = g_tp ? g_tp->cancel(g_tasks[k].token) : (g_wt ? g_wt->cancel(g_tasks[k].token) : 1);
-            else r = g_tp ? (int)g_tp->getTaskStatus(g_tasks[k].token) : (g_wt ? (int)g_wt->getTaskStatus(g_tasks[k].token) : 2);
+            int r; uint64_t cs;
+            {
+                ApiScope as;
+                if (is_cancel) r = g_tp ? g_tp->cancel(g_tasks[k].token) : (g_wt ? g_wt->cancel(g_tasks[k].token) : 1);
+                else r = g_tp ? (int)g_tp->getTaskStatus(g_tasks[k].token) : (g_wt ? (int)g_wt->getTaskStatus(g_tasks[k].token) : 2);
+                cs = tl_cs;
+            }
             uint64_t qa = seq();
             if (is_cancel && r == 0) g_tasks[k].cancelled = true;
-            nev(NEv{is_cancel ? 'c' : 's', k, r, thr, self, 0, false, qb, qa});
+            nev(NEv{is_cancel ? 'c' : 's', k, r, thr, self, 0, false, qb, qa, cs});
         }
     }
 }
@@ -254,6 +356,10 @@ template <typename F> static void for_each_task(F f) {
 static void wait_scripts_done();
 
 static bool g_destroyed = false;
+// bulk submissions (10^4..10^5 anonymous tasks sharing one counter): queue / cabinet / cleanup at scale
+static std::atomic<uint64_t> g_bulk_ran{0};
+static uint64_t g_bulk_n = 0;
+static uint64_t g_cleanup_cs = 0;
 // destroy = true: run the destructor WITHOUT calling cleanup() first (the destructor has to do it)
 static void guarded_cleanup(bool destroy = false) {
     wait_scripts_done();
@@ -264,8 +370,12 @@ static void guarded_cleanup(bool destroy = false) {
     g_capture = 0;
     g_deadline_ms = now_ms() + g_watchdog_ms;
     g_in_cleanup = 1;
-    if (destroy) { delete g_tp; g_tp = nullptr; delete g_wt; g_wt = nullptr; g_destroyed = true; }
-    else { if (g_tp) g_tp->cleanup(); if (g_wt) g_wt->cleanup(); }
+    {
+        ApiScope as;
+        if (destroy) { delete g_tp; g_tp = nullptr; delete g_wt; g_wt = nullptr; g_destroyed = true; }
+        else { if (g_tp) g_tp->cleanup(); if (g_wt) g_wt->cleanup(); }
+        g_cleanup_cs = tl_cs;
+    }
     g_in_cleanup = 0;
     g_deadline_ms = 0;
 }
@@ -283,6 +393,8 @@ static void reset_case() {
     { std::lock_guard<std::mutex> lg(g_nev_mu); g_nev.clear(); }
     g_seq = 0;
     g_track = 0; g_epoch.fetch_add(1); g_created = 0; g_ended = 0;
+    g_bulk_ran = 0; g_bulk_n = 0;
+    g_evon = 0; g_evn = 0; g_fail_create = 0; g_cleanup_cs = 0; g_wt_noloop = false;
     {
         std::lock_guard<std::mutex> lg(g_thr_mu);
         g_thr_ids.clear();
@@ -293,6 +405,7 @@ static void reset_case() {
 // every tracked worker thread that has not ended is blocked in pthread_cond_wait and no accepted task is unfinished
 static bool all_done(bool scripted_only) {
     bool ok = true;
+    if (!scripted_only && g_bulk_ran.load() < g_bulk_n) return false;
     for_each_task([&](size_t k) {
         TaskRec &t = g_tasks[k];
         if (scripted_only && t.bscript.empty()) return;
@@ -344,6 +457,7 @@ int main() {
     if (const char *w = getenv("C05_WATCHDOG_MS")) g_watchdog_ms = atoi(w);
     std::thread(watchdog).detach();
     g_loop = event::Loop::New();
+    g_capture = 2; g_loop->runInLoop([] {}, "capture"); g_capture = 0;     // learn which mutex is the loop's lock_
     g_tasks.reset(new TaskRec[kMaxTasks]);
     thr_index();
     vh::LoopDriver drv(g_loop);
@@ -353,16 +467,47 @@ int main() {
     bool at_eof = false; int off_n = 0; unsigned off_dur = 0;
 
     auto print_events = [&] {
+        {
+            // step-level event log: only the pool mutex, the pool condition variable and the loop's lock
+            size_t n = g_evn.load();
+            if (n > kMaxEv || g_bulk_n) std::cout << "S overflow\n";
+            else {
+                uintptr_t pm = (uintptr_t)g_cap_mutex.load(), lm = (uintptr_t)g_loop_mutex.load(), pc = 0;
+                // the pool's condition variable: the one waited on with the pool mutex
+                std::vector<std::pair<uint64_t, uintptr_t>> evs;
+                for (size_t i = 0; i < n; ++i) evs.push_back({g_evs[i].w.load(std::memory_order_relaxed), g_evs[i].p.load(std::memory_order_relaxed)});
+                std::sort(evs.begin(), evs.end());
+                std::vector<char> in_pool_wait(1024, 0);
+                for (auto &e : evs) {
+                    int kind = (int)((e.first >> 20) & 15), thr = (int)((e.first >> 10) & 1023);
+                    if (kind == EV_CW) in_pool_wait[thr] = (e.second == pm);
+                    else if (kind == EV_CX && in_pool_wait[thr]) { pc = e.second; break; }
+                }
+                std::fill(in_pool_wait.begin(), in_pool_wait.end(), 0);
+                static const char *nm[] = {"?", "L", "U", "CW", "CX", "NO", "NA", "J", "TC"};
+                for (auto &e : evs) {
+                    uint64_t q = e.first >> 24; int kind = (int)((e.first >> 20) & 15), thr = (int)((e.first >> 10) & 1023), arg = (int)(e.first & 1023);
+                    if (kind == EV_L || kind == EV_U) {
+                        if (e.second == pm) std::cout << "S " << nm[kind] << " " << thr << " " << q << "\n";
+                        else if (e.second == lm && kind == EV_L) std::cout << "S LL " << thr << " " << q << "\n";
+                    } else if (kind == EV_CW) { in_pool_wait[thr] = (e.second == pm); if (e.second == pm) std::cout << "S CW " << thr << " " << q << "\n"; }
+                    else if (kind == EV_CX) { if (in_pool_wait[thr]) std::cout << "S CX " << thr << " " << q << "\n"; in_pool_wait[thr] = 0; }
+                    else if (kind == EV_NO || kind == EV_NA) { if (pc == 0 || e.second == pc) std::cout << "S " << nm[kind] << " " << thr << " " << q << "\n"; }
+                    else std::cout << "S " << nm[kind] << " " << thr << " " << q << " " << arg << "\n";
+                }
+            }
+        }
+        if (g_bulk_n) std::cout << "E bulk " << g_bulk_n << " " << g_bulk_ran.load() << "\n";
         int nw = g_created.load();
         for (int i = 1; i <= nw && i < kMaxW; ++i)
             std::cout << "W " << i << " " << g_w[i].s.load() << " " << g_w[i].e.load() << "\n";
         {
             std::lock_guard<std::mutex> lg(g_nev_mu);
             for (const auto &e : g_nev) {
-                if (e.kind == 'x') std::cout << "N exec " << e.k << " " << e.parent << " " << e.thr << " " << e.prio << " " << (e.cb ? 1 : 0) << " " << e.qb << " " << e.qa << "\n";
+                if (e.kind == 'x') std::cout << "N exec " << e.k << " " << e.parent << " " << e.thr << " " << e.prio << " " << (e.cb ? 1 : 0) << " " << e.qb << " " << e.qa << " " << e.cs << "\n";
                 else if (e.kind == 'z') std::cout << "N execnull " << e.parent << " " << e.thr << " " << e.qb << " " << e.qa << "\n";
-                else if (e.kind == 's') std::cout << "N stat " << e.k << " " << "wen"[e.r] << " " << e.thr << " " << e.qb << " " << e.qa << "\n";
-                else std::cout << "N cancel " << e.k << " " << e.r << " " << e.thr << " " << e.qb << " " << e.qa << "\n";
+                else if (e.kind == 's') std::cout << "N stat " << e.k << " " << "wen"[e.r] << " " << e.thr << " " << e.qb << " " << e.qa << " " << e.cs << "\n";
+                else std::cout << "N cancel " << e.k << " " << e.r << " " << e.thr << " " << e.qb << " " << e.qa << " " << e.cs << "\n";
             }
         }
         for_each_task([&](size_t k) {
@@ -379,7 +524,7 @@ int main() {
         bool ok = true;
         for_each_task([&](size_t k) {
             TaskRec &t = g_tasks[k];
-            if (t.cb && t.nbody.load() > 0 && t.e.load() != 0 && t.ncb.load() == 0) ok = false;
+            if (t.cb && !t.cbdrop.load() && t.nbody.load() > 0 && t.e.load() != 0 && t.ncb.load() == 0) ok = false;
             if (t.nbody.load() > 0 && t.e.load() == 0) ok = false;   // body still running
         });
         return ok;
@@ -403,18 +548,51 @@ int main() {
         if (w[0] == "case") { reset_case(); fin_done = false; std::cout << line << "\n"; return true; }
         uint64_t a = 0, b = 0, c = 0, d = 0; int64_t pr = 0;
         const std::string &op = w[0];
-        if (op == "cfg" && w.size() == 6 && (w[1] == "pool" || w[1] == "wt") && vh::to_u64(w[2], a) && vh::to_u64(w[3], b)
-            && vh::to_u64(w[4], c) && vh::to_u64(w[5], d) && a <= 64 && b <= 64 && d <= 1000 && !g_tp && !g_wt && !g_destroyed) {
+        int64_t smn = 0, smx = 0;
+        if (op == "cfg" && w.size() == 6 && (w[1] == "pool" || w[1] == "wt" || w[1] == "wt0") && vh::to_i64(w[2], smn) && vh::to_i64(w[3], smx)
+            && vh::to_u64(w[4], c) && vh::to_u64(w[5], d) && !(smn > 64 && smn <= smx) && d <= 1000 && !g_tp && !g_wt && !g_destroyed) {
             g_pseed = (uint32_t)c * 2654435761u + 12345u;
             g_perturb = (int)d;
             g_track = 1;
-            bool ok;
-            if (w[1] == "pool") { g_tp = new ThreadPool(g_loop); ok = g_tp->initialize((ssize_t)a, (ssize_t)b); }
-            else { g_wt = new WorkThread(g_loop); ok = true; }
+            g_evon = 1;
+            bool ok = false, threw = false;
+            if (w[1] == "pool") {
+                g_tp = new ThreadPool(g_loop);
+                try { ok = g_tp->initialize((ssize_t)smn, (ssize_t)smx); } catch (const std::exception &) { threw = true; }
+            }
+            else { g_wt = new WorkThread(w[1] == "wt" ? g_loop : nullptr); g_wt_noloop = (w[1] == "wt0"); ok = true; }
             g_inited = ok;
+            g_cap_mutex = nullptr; g_capture = 1;
+            if (g_tp) (void)g_tp->getTaskStatus(cabinet::Token());
+            if (g_wt) (void)g_wt->getTaskStatus(cabinet::Token());
+            g_capture = 0;
+            // a refused initialize() must not leave worker threads behind
+            if (!ok) { int64_t dl = now_ms() + 300; while (g_created.load() != g_ended.load() && now_ms() < dl) usleep(200); }
+            if (threw) std::cout << "P init threw " << (g_created.load() - g_ended.load()) << "\n";
+            else std::cout << "P init " << (ok ? 1 : 0) << " " << (g_created.load() - g_ended.load()) << "\n";
+        } else if (op == "reinit" && w.size() == 3 && vh::to_i64(w[1], smn) && vh::to_i64(w[2], smx) && g_tp && !g_cleaned && g_inited) {
+            // initialize() on a pool that is ready: refused, nothing changes
+            bool ok = g_tp->initialize((ssize_t)smn, (ssize_t)smx);
             std::cout << "P init " << (ok ? 1 : 0) << "\n";
+        } else if (op == "bulk" && w.size() == 3 && vh::to_u64(w[1], a) && a >= 1 && a <= 200000 && vh::to_i64(w[2], pr) && pr >= INT32_MIN && pr <= INT32_MAX
+                   && (g_tp || g_wt) && !fin_done && g_bulk_n == 0) {
+            g_evon = 0;                                  // the step log would overflow: history-level checks only
+            g_perturb = 0;                               // no injected delays at this scale (10^5 x 1.5 ms would dwarf any watchdog)
+            uint64_t qb = seq(), acc = 0;
+            for (uint64_t i = 0; i < a; ++i) {
+                cabinet::Token tok = g_tp ? g_tp->execute([] { g_bulk_ran.fetch_add(1, std::memory_order_relaxed); }, (int)pr)
+                                          : g_wt->execute([] { g_bulk_ran.fetch_add(1, std::memory_order_relaxed); });
+                if (!tok.isNull()) ++acc;
+            }
+            g_bulk_n = acc;
+            uint64_t qa = seq();
+            std::cout << "P bulk " << acc << " " << qb << " " << qa << "\n";
+        } else if (op == "failspawn" && w.size() == 2 && vh::to_u64(w[1], a) && a >= 1 && a <= 8 && !g_wt && !g_destroyed) {
+            // fault schedule: the a-th pthread_create from now on answers EAGAIN
+            g_fail_create = (int)a;
+            std::cout << "P failspawn\n";
         } else if ((op == "exec" || op == "execs") && (w.size() == 4 || (op == "execs" && w.size() == 6)) && w.size() == (op == "exec" ? 4u : 6u)
-                   && vh::to_i64(w[1], pr) && pr >= -100 && pr <= 100 && (w[2] == "0" || w[2] == "1")
+                   && vh::to_i64(w[1], pr) && pr >= INT32_MIN && pr <= INT32_MAX && (w[2] == "0" || w[2] == "1")
                    && vh::to_u64(w[3], c) && c <= 20000 && (g_tp || g_wt) && g_ntasks < kNestBase && !fin_done
                    && (op == "exec" || (parse_script(w[4], g_tasks[g_ntasks].bscript, g_ntasks) && parse_script(w[5], g_tasks[g_ntasks].cscript, g_ntasks)
                                         && (w[2] == "1" || g_tasks[g_ntasks].cscript.empty())))) {
@@ -422,42 +600,44 @@ int main() {
             TaskRec &t = g_tasks[k];
             t.prio = (int)pr; t.cb = (w[2] == "1"); t.dur_us = (unsigned)c;
             if (op == "exec") { t.bscript.clear(); t.cscript.clear(); }
-            auto body = [k] { task_body(k); };
-            auto cbf = [k] { task_cb(k); };
             // worker-level observation for the spawn rule: is the pool quiescent (every live worker blocked in
             // the wait), what does snapshot() say just before, how many threads does execute() create
             bool quiet = quiescent();
             size_t thr0 = 0, idle0 = 0, undo0 = 0;
             if (g_tp) { auto ss = g_tp->snapshot(); thr0 = ss.thread_num; idle0 = ss.idle_thread_num;
                         for (size_t i = 0; i < THREAD_POOL_PRIO_SIZE; ++i) undo0 += ss.undo_task_num[i]; }
-            int created0 = tl_made;
+            int created0 = tl_made, failed0 = tl_failed;
             uint64_t qb = seq();
-            cabinet::Token tok;
-            if (g_tp) tok = t.cb ? g_tp->execute(body, cbf, (int)pr) : g_tp->execute(body, (int)pr);
-            else tok = t.cb ? g_wt->execute(body, cbf) : g_wt->execute(body);
+            cabinet::Token tok; bool threw = false;
+            try { tok = do_execute(k, t.cb, (int)pr); } catch (const std::exception &) { threw = true; tl_api = 0; }
+            uint64_t cs = tl_cs;
             uint64_t qa = seq();
-            int spawned = tl_made - created0;
-            if (tok.isNull()) { t.bscript.clear(); t.cscript.clear(); std::cout << "P exec null " << qb << " " << qa << "\n"; }
-            else { t.token = tok; ++g_ntasks; std::cout << "P exec " << k << " " << qb << " " << qa << "\n"; }
-            std::cout << "M spawn " << spawned << " " << (quiet ? 1 : 0) << " " << thr0 << " " << idle0 << " " << undo0 << "\n";
+            int spawned = tl_made - created0, failed = tl_failed - failed0;
+            if (threw) { t.bscript.clear(); t.cscript.clear(); std::cout << "P exec threw " << qb << " " << qa << " " << cs << "\n"; }
+            else if (tok.isNull()) { t.bscript.clear(); t.cscript.clear(); std::cout << "P exec null " << qb << " " << qa << " " << cs << "\n"; }
+            else { t.token = tok; ++g_ntasks; std::cout << "P exec " << k << " " << qb << " " << qa << " " << cs << "\n"; }
+            std::cout << "M spawn " << spawned << " " << (quiet ? 1 : 0) << " " << thr0 << " " << idle0 << " " << undo0 << " " << failed << "\n";
         } else if (op == "stat" && w.size() == 2 && vh::to_u64(w[1], a) && a < g_ntasks && (g_tp || g_wt)) {
             uint64_t qb = seq();
-            int st = g_tp ? (int)g_tp->getTaskStatus(g_tasks[a].token) : (int)g_wt->getTaskStatus(g_tasks[a].token);
+            int st; uint64_t cs;
+            { ApiScope as; st = g_tp ? (int)g_tp->getTaskStatus(g_tasks[a].token) : (int)g_wt->getTaskStatus(g_tasks[a].token); cs = tl_cs; }
             uint64_t qa = seq();
-            std::cout << "P stat " << a << " " << "wen"[st] << " " << qb << " " << qa << "\n";
+            std::cout << "P stat " << a << " " << "wen"[st] << " " << qb << " " << qa << " " << cs << "\n";
         } else if (op == "cancel" && w.size() == 2 && vh::to_u64(w[1], a) && a < g_ntasks && (g_tp || g_wt)) {
             uint64_t qb = seq();
-            int r = g_tp ? g_tp->cancel(g_tasks[a].token) : g_wt->cancel(g_tasks[a].token);
+            int r; uint64_t cs;
+            { ApiScope as; r = g_tp ? g_tp->cancel(g_tasks[a].token) : g_wt->cancel(g_tasks[a].token); cs = tl_cs; }
             uint64_t qa = seq();
             if (r == 0) g_tasks[a].cancelled = true;
-            std::cout << "P cancel " << a << " " << r << " " << qb << " " << qa << "\n";
+            std::cout << "P cancel " << a << " " << r << " " << qb << " " << qa << " " << cs << "\n";
         } else if (op == "snap" && w.size() == 1 && g_tp) {
             uint64_t qb = seq();
-            auto ss = g_tp->snapshot();
+            ThreadPool::Snapshot ss; uint64_t cs;
+            { ApiScope as; ss = g_tp->snapshot(); cs = tl_cs; }
             uint64_t qa = seq();
             std::cout << "P snap " << ss.thread_num << " " << ss.idle_thread_num << " " << ss.doing_task_num;
             for (size_t i = 0; i < THREAD_POOL_PRIO_SIZE; ++i) std::cout << " " << ss.undo_task_num[i];
-            std::cout << " " << qb << " " << qa << "\n";
+            std::cout << " " << qb << " " << qa << " " << cs << " " << ss.undo_task_peak_num << "\n";
         } else if (op == "hammer" && w.size() == 2 && vh::to_u64(w[1], a) && a <= 200000 && (g_tp || g_wt)) {
             // for `a` microseconds query every task over and over; print an answer only when it changed
             std::vector<int> last(g_ntasks, -1);
@@ -465,9 +645,10 @@ int main() {
             do {
                 for (size_t k = 0; k < g_ntasks; ++k) {
                     uint64_t qb = seq();
-                    int st = g_tp ? (int)g_tp->getTaskStatus(g_tasks[k].token) : (int)g_wt->getTaskStatus(g_tasks[k].token);
+                    int st; uint64_t cs;
+                    { ApiScope as; st = g_tp ? (int)g_tp->getTaskStatus(g_tasks[k].token) : (int)g_wt->getTaskStatus(g_tasks[k].token); cs = tl_cs; }
                     uint64_t qa = seq();
-                    if (st != last[k]) { last[k] = st; std::cout << "P stat " << k << " " << "wen"[st] << " " << qb << " " << qa << "\n"; }
+                    if (st != last[k]) { last[k] = st; std::cout << "P stat " << k << " " << "wen"[st] << " " << qb << " " << qa << " " << cs << "\n"; }
                 }
             } while (std::chrono::steady_clock::now() < t_end);
             std::cout << "P hammer\n";
@@ -482,7 +663,7 @@ int main() {
             std::cout << "P sleep\n";
         } else if (op == "drain" && w.size() == 1 && (g_tp || g_wt)) {
             // wait until every accepted, not cancelled task has finished its body (only meaningful before cleanup)
-            int64_t dl = now_ms() + g_watchdog_ms;
+            int64_t dl = now_ms() + g_watchdog_ms + (int64_t)(g_bulk_n / 5);
             bool ok = false;
             while (!g_cleaned) {
                 ok = all_done(false);
@@ -493,7 +674,7 @@ int main() {
         } else if (op == "settle" && w.size() == 1 && (g_tp || g_wt)) {
             // wait until the pool is quiescent: no unfinished task, every live worker blocked in the wait, then
             // let the loop run the posted joins (next passes) — report what snapshot() says
-            int64_t dl = now_ms() + g_watchdog_ms;
+            int64_t dl = now_ms() + g_watchdog_ms + (int64_t)(g_bulk_n / 5);
             bool ok = false;
             while (!(ok = quiescent()) && now_ms() < dl) usleep(200);
             std::cout << "P settle " << (ok ? "ok" : "timeout") << "\n";
@@ -509,14 +690,14 @@ int main() {
             uint64_t qa = seq();
             int live = g_created.load() - g_ended.load();     // worker threads whose thread function has not returned
             g_cleaned = true;
-            std::cout << "P cleanup ok " << qb << " " << qa << " " << live << " " << g_cq1.load() << "\n";
+            std::cout << "P cleanup ok " << qb << " " << qa << " " << live << " " << g_cq1.load() << " " << g_cleanup_cs << "\n";
         } else if (op == "destroy" && w.size() == 1 && (g_tp || g_wt)) {
             uint64_t qb = seq();
             guarded_cleanup(true);
             uint64_t qa = seq();
             int live = g_created.load() - g_ended.load();
             g_cleaned = true;
-            std::cout << "P destroy ok " << qb << " " << qa << " " << live << " " << g_cq1.load() << "\n";
+            std::cout << "P destroy ok " << qb << " " << qa << " " << live << " " << g_cq1.load() << " " << g_cleanup_cs << "\n";
         } else if (op == "fin" && w.size() == 1 && !fin_done) {
             fin_done = true;
             wait_scripts_done();                   // bodies that call the API finish first (their records are printed below)
@@ -536,20 +717,19 @@ int main() {
             size_t k = g_ntasks;
             TaskRec &t = g_tasks[k];
             t.prio = 0; t.cb = true; t.dur_us = off_dur;
-            auto body = [k] { task_body(k); };
-            auto cbf = [k] { task_cb(k); };
             bool quiet = quiescent();
             size_t thr0 = 0, idle0 = 0, undo0 = 0;
             if (g_tp) { auto ss = g_tp->snapshot(); thr0 = ss.thread_num; idle0 = ss.idle_thread_num;
                         for (size_t j = 0; j < THREAD_POOL_PRIO_SIZE; ++j) undo0 += ss.undo_task_num[j]; }
             int created0 = tl_made;
             uint64_t qb = seq();
-            cabinet::Token tok = g_tp ? g_tp->execute(body, cbf, 0) : g_wt->execute(body, cbf);
+            cabinet::Token tok = do_execute(k, true, 0);
+            uint64_t cs = tl_cs;
             uint64_t qa = seq();
             int spawned = tl_made - created0;
-            if (tok.isNull()) std::cout << "P exec null " << qb << " " << qa << "\n";
-            else { t.token = tok; ++g_ntasks; std::cout << "P exec " << k << " " << qb << " " << qa << "\n"; }
-            std::cout << "M spawn " << spawned << " " << (quiet ? 1 : 0) << " " << thr0 << " " << idle0 << " " << undo0 << "\n";
+            if (tok.isNull()) std::cout << "P exec null " << qb << " " << qa << " " << cs << "\n";
+            else { t.token = tok; ++g_ntasks; std::cout << "P exec " << k << " " << qb << " " << qa << " " << cs << "\n"; }
+            std::cout << "M spawn " << spawned << " " << (quiet ? 1 : 0) << " " << thr0 << " " << idle0 << " " << undo0 << " 0\n";
         }
         int64_t dl = now_ms() + g_watchdog_ms;
         bool ok = false;
